@@ -48,6 +48,7 @@ pub struct BatchResult {
     pub samples: Vec<J>,
     pub wall_ms: u128,
     pub digest_of_digests: u64,
+    pub classes: std::collections::BTreeSet<u64>,
 }
 
 /// Execute runs `start..start+count` of the scenario on `workers` threads.
@@ -78,6 +79,7 @@ pub fn run_batch<S: Scenario>(
         faults: BTreeMap<String, u64>,
         viol: Vec<(u64, Violation)>,
         first_nontrivial: Vec<u64>,
+        classes: std::collections::BTreeSet<u64>,
     }
     let mut partials: Vec<Partial> = Vec::new();
     std::thread::scope(|sc| {
@@ -94,6 +96,7 @@ pub fn run_batch<S: Scenario>(
                     faults: BTreeMap::new(),
                     viol: Vec::new(),
                     first_nontrivial: Vec::new(),
+                    classes: std::collections::BTreeSet::new(),
                 };
                 let mut i = start + w as u64;
                 while i < start + count {
@@ -112,6 +115,7 @@ pub fn run_batch<S: Scenario>(
                             p.first_nontrivial.push(i);
                         }
                     }
+                    p.classes.extend(out.classes.iter().copied());
                     for (k, v) in &out.probes {
                         *p.probes.entry(k.to_string()).or_insert(0) += v;
                         *p.probe_runs.entry(k.to_string()).or_insert(0) += 1;
@@ -147,6 +151,7 @@ pub fn run_batch<S: Scenario>(
         samples: Vec::new(),
         wall_ms: 0,
         digest_of_digests: crate::core::FNV_INIT,
+        classes: std::collections::BTreeSet::new(),
     };
     // merge (sums are order-independent; lists are sorted by run index)
     let mut digests: Vec<(u64, u64, u64, u64)> = Vec::new();
@@ -165,6 +170,7 @@ pub fn run_batch<S: Scenario>(
         for (k, v) in p.faults {
             *res.faults_configured.entry(k).or_insert(0) += v;
         }
+        res.classes.extend(p.classes);
         digests.extend(p.digests);
         viol.extend(p.viol);
         sample_runs.extend(p.first_nontrivial);
@@ -452,6 +458,8 @@ pub fn batch_to_json(tag: &str, config: &str, seed: u64, start: u64, res: &Batch
         ("distinct_all", J::u(res.distinct_all)),
         ("digest_of_digests", J::Str(format!("{:016x}", res.digest_of_digests))),
         ("wall_ms", J::u(res.wall_ms as u64)),
+        ("state_classes", J::u(res.classes.len() as u64)),
+        ("state_class_examples", J::Arr(res.classes.iter().take(12).map(|c| J::Str(format!("start={} end={} limit={} last={} declared={}", c >> 24, (c >> 16) & 0xff, (c >> 8) & 0xff, (c >> 1) & 1, c & 1))).collect())),
         ("probes", map(&res.probes)),
         ("probe_runs", map(&res.probe_runs)),
         ("faults_configured", map(&res.faults_configured)),
